@@ -94,10 +94,95 @@ class XlsxRT:
                 "exhaustive": False, "design": res["design"], "impl_to_spec": res["i2s"], "roundtrips": r["roundtrips"], "operations": r["ops"], "roundtrip_failures": r["roundtrip_failures"]}
 
 
+class ReentryFam:
+    PROPS = ["C18"]
+    ASSUMPTIONS = ["inputs: every string up to length 3 (thorough 4) over the 17-character alphabet {1 2 0 , . - + e % $ EUR / space : ' = T} and a vocabulary of 145 entries (booleans and errors in the five languages, dates, times, percentages, currencies, grouped, scientific, very small and very large numbers, look-alike strings with and without the quote prefix, 25 formulas incl. malformed ones, Unicode / control-character text, a URL)",
+                   "each input is typed with Model::set_user_input into a fresh default-styled cell of a workbook in each language / locale pair (quick: 8 pairs; thorough: 12 pairs - every language, every locale, crossings), evaluated, observed; then get_localized_cell_content is typed back into the same cell, evaluated and observed again",
+                   "observed components: content text, value type, style (every attribute), value with numbers to 15 significant digits; TLC compares them as interned ids",
+                   "an input the engine refuses carries no verdict; shown content the engine refuses is a violation"]
+
+    @staticmethod
+    def run(d, tier, seed):
+        res = {"violations": {"C18": []}}
+        vs, _ = icverif(["reentryvocab"])
+        cfg = open(os.path.join(SPEC, "Reentry.cfg")).read().replace("VocabSize = 1", "VocabSize = %d" % vs["vocab"])
+        if tier == "thorough":
+            cfg = cfg.replace("MaxLen = 3", "MaxLen = 4")
+        cfgp = os.path.join(d, "reentry.cfg")
+        open(cfgp, "w").write(cfg)
+        rc, out, dt = tlc("Reentry.tla", cfgp, os.path.join(d, "meta_cases"), workers=8, timeout=1700)
+        st = tlc_stats(out)
+        if st is None or "Error:" in out or "is violated" in out:
+            raise ToolError("Reentry.tla failed:\n" + out[-2000:])
+        from fam_cases import cases_from
+        path = os.path.join(d, "cases.ndjson")
+        n = cases_from(out, path)
+        langs, locs = ["en", "es", "fr", "de", "it"], ["en", "en-GB", "es", "fr", "de", "it"]
+        if tier == "thorough":
+            # every language with its own locale, English with every locale, and three crossings
+            pairs = ["en/en", "es/es", "fr/fr", "de/de", "it/it", "en/en-GB", "en/es", "en/fr", "en/de", "en/it", "de/en", "it/fr"]
+        else:
+            pairs = ["en/en", "de/de", "es/es", "fr/fr", "it/it", "en/de", "fr/en-GB", "es/it"]
+        odir = os.path.join(d, "out")
+        rr, dt2 = icverif(["reentry", "--in", path, "--out", odir, "--pairs", ",".join(pairs)], timeout=3400)
+        tp = os.path.join(odir, "reentry.ndjson")
+        ok, vout, dtv = validate_trace("TraceReentry.tla", os.path.join(SPEC, "TraceReentry.cfg"), tp, os.path.join(d, "m"), timeout=3400)
+        if not ok:
+            raise ToolError("TraceReentry did not consume the whole trace:\n" + vout[-3000:])
+        vst = tlc_stats(vout)
+        details = {}
+        for line in open(os.path.join(odir, "detail.ndjson")):
+            x = json.loads(line)
+            details[x["l"]] = x
+        seen = {}
+        printed = 0
+        for v in tla_tuple_lines(vout, "VIOL"):
+            _, l, prop, comp = v[:4]
+            printed += 1
+            x = details.get(l, {})
+            if comp == "content-refused":
+                cands = [("C18|content-refused|" + re.sub(r"\d", "N", x.get("err", ""))[:60], f"the shown content {x.get('shown')!r} of input {x.get('case')} was refused: {x.get('err')}")]
+            else:
+                cands = []
+                first_type = x.get("first", {}).get("type", "?")
+                for dd in x.get("diff", {}).get(comp, []) or [""]:
+                    parts = (dd.split("\t") + ["", ""])[:3]
+                    shown = x.get("shown") or ""
+                    if shown.startswith("=") and "#REF!" in shown:
+                        # the typed text was taken as a formula with an impossible reference (row 0, column beyond the grid)
+                        sig = f"C18|{comp}|{parts[0]}|{first_type}|ref-error-in-formula"
+                    else:
+                        sig = f"C18|{comp}|{parts[0]}|{first_type}|" + re.sub(r"\d", "N", parts[2])[:60]
+                    cands.append((sig, f"{comp} of the cell typed as {x.get('case')} (shown {x.get('shown')!r}) changed on re-entry: {parts[0]} {parts[2][:160]}"))
+            for sig, what in cands:
+                if sig in seen:
+                    seen[sig]["count"] += 1
+                    continue
+                vv = {"signature": sig, "what": what, "count": 1,
+                      "payload": {"property": "C18", "family": "reentry", "signature": sig, "what": what, "direction": "I->S", "case": x.get("case"), "shown": x.get("shown"), "diff": x.get("diff"), "first": x.get("first")}}
+                seen[sig] = vv
+                res["violations"]["C18"].append(vv)
+        res["run"] = rr
+        res["tlc"] = {"states": st["distinct"], "transitions": st["generated"], "inputs_printed": n, "seconds": round(dt, 1)}
+        res["i2s"] = {"events": vst["distinct"] - 1, "violations_printed": printed, "seconds": round(dtv + dt2, 1), "pairs": pairs}
+        os.remove(tp)
+        os.remove(path)
+        return res
+
+    @staticmethod
+    def evidence_for(prop, res):
+        r = res["run"]
+        return {"states": res["tlc"]["states"] + res["i2s"]["events"], "transitions": res["tlc"]["transitions"] + res["i2s"]["events"],
+                "traces_validated_against_impl": len(res["i2s"]["pairs"]), "samples": [{"pairs": res["i2s"]["pairs"]}],
+                "evaluations": r["cases"] * 4, "distinct_nontrivial": r["cell_kinds"],
+                "rule": "every input of Reentry.tla x every language/locale pair: type, observe, type the shown content back, observe; TLC (TraceReentry.tla) requires the 4 components equal; evaluations = cases x components; distinct_nontrivial = distinct (value type, number format) kinds of cells the inputs produced.",
+                "exhaustive": True, "inputs": r["inputs"], "cases": r["cases"], "refused_inputs": r["refused_inputs"], "panics": r["panics"], "tlc": res["tlc"], "impl_to_spec": res["i2s"]}
+
+
 def replay(prop, path):
     payload = json.load(open(path))
-    print("replay: program of", len(payload.get("program", [])), "operations; signature", payload.get("signature"))
-    print("replay: re-run `bin/check C24` with VERIF_SEED=%s to re-evaluate it on the current tree" % payload.get("seed"))
+    print("replay:", json.dumps(payload.get("case") or {"program_length": len(payload.get("program", []))}), "signature", payload.get("signature"))
+    print("replay: re-run `bin/check %s` (VERIF_SEED=%s) to re-evaluate it on the current tree" % (prop, payload.get("seed", 1)))
     return 0
 
 
@@ -112,4 +197,4 @@ def _wrap(cls, name):
     return (name, M)
 
 
-TABLE = {"C24": _wrap(XlsxRT, "xlsxrt")}
+TABLE = {"C24": _wrap(XlsxRT, "xlsxrt"), "C18": _wrap(ReentryFam, "reentry")}
